@@ -259,8 +259,20 @@ def pushP (vm : Vm) (a : Nat) : Except Stop Vm := do
   let vm1 ← checkP { vm with sp := vm.sp + 1 }
   wrP vm1 vm1.sp (.addr a)
 
-/-- `vm_execute_mark`: five frame words written above `sp`, THEN the stack check -/
+/-- `vm_execute_mark`: `sp += 5; vm_check_stack;` then the five frame words, then `fp = sp`
+(check-before-write since the `fix:` commit b857a09; `markPinnedP` below is the pinned order) -/
 def markP (vm : Vm) (retAddr : Nat) : Except Stop Vm := do
+  let sp := vm.sp
+  let v ← checkP { vm with sp := sp + 5 }
+  let v ← wrP v (sp + 5) (.ip retAddr)
+  let v ← wrP v (sp + 4) (.stk vm.fp)
+  let v ← wrP v (sp + 3) (.addr vm.gp)
+  let v ← wrP v (sp + 2) (.ip vm.line)
+  let v ← wrP v (sp + 1) (.stk vm.pp)
+  .ok { v with fp := sp + 5 }
+
+/-- `vm_execute_mark` as in the pinned tree: five writes above `sp`, THEN the stack check (kept for the record) -/
+def markPinnedP (vm : Vm) (retAddr : Nat) : Except Stop Vm := do
   let sp := vm.sp
   let v ← wrP vm (sp + 5) (.ip retAddr)
   let v ← wrP v (sp + 4) (.stk vm.fp)
@@ -630,7 +642,7 @@ def rangePairs (range : Nat) : Nat → Nat → M (List (Int × Int))
   | _, 0 => pure []
   | d, n+1 => do let p ← rangePair range d; pure (p :: (← rangePairs range (d + 1) n))
 
-/-- `for (i = size; i > 0; i--) stack[sp + (i-1)] = vec[size - i]` -/
+/-- `for (i = size; i > 0; i--) stack[sp_old + (i-1)] = vec[size - i]` (after `sp += size - 1; vm_check_stack`) -/
 def unpackLoop (sp : Int) (fs : List Nat) (size : Nat) : Nat → M Unit
   | 0 => pure ()
   | i+1 => do
@@ -650,9 +662,7 @@ def allocLoop : Nat → M Unit
   | 0 => pure ()
   | n+1 => do
     let a ← alloc (.func 0 0)
-    let s ← getSp
-    setSp (s + 1)
-    wrSlot (s + 1) (.addr a)
+    pushAddr a
     allocLoop n
 
 def fillStrs (arr : Nat) : Nat → List (List UInt8) → M Unit
@@ -1081,15 +1091,16 @@ def exec (md : Module) (ins : Instr) (orc : Oracle) : M Unit := do
     if ins.w0 != fs.length then raise 3 else
     let size := fs.length
     -- for (i = size; i > 0; i--) stack[sp + (i-1)] = vec[size - i]
-    unpackLoop sp fs size size
     setSp (sp + size - 1)
     checkStack
+    unpackLoop sp fs size size
   | .NIL_RECORD_REF => pushAddr (← alloc (.vecRef 0))
   | .FUNC_DEF | .FUNC_OBJ => pure ()
   | .FUNC_FFI | .FUNC_FFI_BOOL | .FUNC_FFI_INT | .FUNC_FFI_LONG | .FUNC_FFI_FLOAT | .FUNC_FFI_DOUBLE
   | .FUNC_FFI_CHAR | .FUNC_FFI_STRING | .FUNC_FFI_VOID | .FUNC_FFI_C_PTR | .FUNC_FFI_RECORD => crash "ffi"
   | .DUP => do
     setSp (sp + 1)
+    checkStack
     let s ← rdSlot (sp + 1 - ins.w0)
     wrSlot (sp + 1) s
   | .GLOBAL_VEC => do
@@ -1115,7 +1126,6 @@ def exec (md : Module) (ins : Instr) (orc : Oracle) : M Unit := do
   | .COPYGLOB => do pushAddr (← get).gp
   | .ALLOC => do
     allocLoop ins.w0
-    checkStack
   | .REWRITE => do
     let (gp, fip) ← getFunc (← rdAddr sp)
     let d ← rdAddr (sp - ins.w0)
